@@ -164,6 +164,16 @@ def parse_template(path, defines=None):
             kv = _kv(toks[1:])
             pre = kv.get("in", "")
             cur_splice = {"at": f"{pre}closure[{toks[0]}].prelude", "_lines": []}
+        elif line.startswith("@desugarfor "):
+            flush_splice()
+            toks = shlex.split(line[len("@desugarfor "):])
+            kv = _kv(toks[1:])
+            pre = kv.get("in", "")
+            cur_splice = {"at": f"{pre}loop[{toks[0]}].desugar", "name": kv.get("name", "it"), "expect": "for", "_lines": []}
+        elif line.startswith("@borrowcalls "):
+            flush_splice()
+            toks = shlex.split(line[len("@borrowcalls "):])
+            ex["splices"].append({"at": "borrowcalls", "name": toks[0], "text": ""})
         elif line.startswith("@loopiter "):
             flush_splice()
             toks = shlex.split(line[len("@loopiter "):])
